@@ -274,6 +274,59 @@ pub fn check_world(r: &mut Report, d: &mut Driver, w: &gen::GWorld, tag: &str) {
         }
         Err(p) => r.fail("oracle", "C17/panic-after-certify", p, &case),
     }
+    // ---- the same through the real `certify`, one proposal after the other in the listed order,
+    // each followed by certify's own clean-up (which may prune what a later proposal starts from)
+    if sug.suggestions.len() >= 2 && hash_str(&world_line) % 2 == 0 {
+        let mut st = Store::mock(store.config.clone(), store.audits.clone(), store.imports.clone());
+        st.live_imports = store.live_imports.clone();
+        let mut ok = true;
+        for s in &sug.suggestions {
+            let p = &rep.graph.nodes[s.package];
+            let mut args: Vec<String> = vec!["cargo".into(), "vet".into(), "certify".into(), p.name.to_owned()];
+            if let Some(f) = &s.suggested_diff.from {
+                args.push(f.to_string());
+            }
+            args.push(s.suggested_diff.to.to_string());
+            for c in mapper.criteria_names(&s.suggested_criteria) {
+                args.push("--criteria".into());
+                args.push(c.to_owned());
+            }
+            args.extend(["--who".to_owned(), "tester".to_owned(), "--accept-all".to_owned()]);
+            if s.suggested_diff.from.is_some() {
+                args.push("--no-collapse".into());
+            }
+            let cfg2 = mock_cfg_args(md, args.iter().map(|a| a.as_str()));
+            let Some(crate::cli::Commands::Certify(sub)) = &cfg2.cli.command else { ok = false; break };
+            let out = BasicTestOutput::new();
+            match guarded(|| crate::do_cmd_certify(&out.clone().as_dyn(), &cfg2, sub, &mut st, None, None)) {
+                Ok(Ok(())) => {}
+                Ok(Err(_)) => { ok = false; break; }
+                Err(pn) => {
+                    if r.prop == "C17" { r.fail("oracle", "C17/certify-panics", pn, &case); }
+                    ok = false;
+                    break;
+                }
+            }
+        }
+        if ok {
+            r.oracle_checked += 1;
+            r.count("certify-in-order:run");
+            if let Ok(rep3) = guarded(|| resolver::resolve(md, None, &st)) {
+                if let Conclusion::FailForVet(f3) = &rep3.conclusion {
+                    let unhealed: Vec<String> = f3.failures.iter().filter(|(i, _)| sug.suggestions.iter().any(|s| rep.graph.nodes[s.package].name == rep3.graph.nodes[*i].name)).map(|(i, a)| format!("{}:{} missing {}", rep3.graph.nodes[*i].name, rep3.graph.nodes[*i].version, bits(&a.criteria_failures))).collect();
+                    // (two versions sharing one proposed diff is the separate, fixed, de-duplication matter)
+                    let shared = f3.failures.iter().any(|(i, _)| {
+                        let name = rep3.graph.nodes[*i].name;
+                        fail.failures.iter().filter(|(j, _)| rep.graph.nodes[*j].name == name).count() >= 2
+                    });
+                    if !unhealed.is_empty() && r.prop == "C17" {
+                        let sig = if shared { "C17/certify-in-order-does-not-heal/several-versions" } else { "C17/certify-in-order-does-not-heal" };
+                        r.fail("oracle", sig, format!("after running `certify` for each of the {} proposals in the listed order vet still fails: {unhealed:?}", sug.suggestions.len()), &case);
+                    }
+                }
+            }
+        }
+    }
     if r.samples.len() < 3 {
         r.sample(format!("[{tag}] {} failing packages, {} suggestions", fail.failures.len(), sug.suggestions.len()));
     }
